@@ -5,8 +5,11 @@
 (*   tex  : Seq(id)                         root.textures (an id stands for the file name)                        *)
 (*   mat  : Seq([id, t1, t2])               root.materials; t1 / t2 = texture1 / texture2 (0-based texture index)  *)
 (*   gi   : Seq(id)                         root.groups (group infos; the id stands for the name)                  *)
-(*   grp  : Seq([gidx, v, ix, bm])          editor.groups (loaded group data): header.group_index, vertices (ids), *)
-(*                                          triangle indices (0-based into v), batches' material_id (0-based)      *)
+(*   grp  : Seq([gidx, v, ix, bm, ml, dr])  editor.groups (loaded group data): header.group_index, vertices (ids), *)
+(*                                          triangle indices (0-based into v), batches' material_id, the group's   *)
+(*                                          materials list, doodad_refs (0-based into dd; None = <<>>),             *)
+(*                                          na = number of per-vertex normals (0 = the group carries none)         *)
+(*   pr   : Seq(group index)                root.portal_references[..].group_index                                  *)
 (*   gmod : Seq(BOOLEAN)                    editor.group_modified                                                  *)
 (*   dd   : Seq(id)                         root.doodad_defs                                                       *)
 (*   ds   : Seq([id, st, n])                root.doodad_sets (start_doodad, n_doodads)                             *)
@@ -23,22 +26,25 @@
 (*                    removes groups[index]: every shifted group keeps position + 1 as its index.                  *)
 (*   DanglingZero     remove_texture / remove_material / remove_vertex set a reference to the removed element to   *)
 (*                    0 ("use a default one instead") also when the removed element was the last one: the          *)
-(*                    reference 0 then points past the empty list.  The relied-upon machine refuses (err).          *)
+(*                    reference 0 then points past the empty list (likewise doodad_refs in remove_doodad, portal references *)
+(*                    in remove_group).  The relied-upon machine refuses (err).                                     *)
 (*   ErrUnderflow     every out-of-range error is built with `max: len as u32 - 1`: on an empty list the failing   *)
 (*                    call panics (debug / overflow-checked builds) instead of returning InvalidReference.          *)
 (*   NamesCountDrift  add_doodad increments header.n_doodad_names, remove_doodad does not decrement it.            *)
 (*   VertexNoFlag     add_vertex / remove_vertex change group data but do not set group_modified[group].           *)
+(*   AttrsNotParallel add_vertex pushes the vertex only: in a group that carries per-vertex normals (tex coords, colours)  *)
+(*                    the attribute arrays stay one short of the vertices (remove_vertex does remove from all of them).     *)
 (*   NoRenumber       (not in /repo; a must-refute control) removal does not shift references > i down.            *)
 EXTENDS Integers, Sequences, FiniteSets
 
 CONSTANT Dev
-AsCoded == {"CreateMisplaced", "StaleGroupIndex", "DanglingZero", "ErrUnderflow", "NamesCountDrift", "VertexNoFlag"}
+AsCoded == {"CreateMisplaced", "StaleGroupIndex", "DanglingZero", "ErrUnderflow", "NamesCountDrift", "VertexNoFlag", "AttrsNotParallel"}
 
 \* ---- helpers (refs are 0-based like in the code; sequences 1-based) ----------------------------------------------
 DropAt(sq, i0) == [j \in 1..(Len(sq) - 1) |-> IF j <= i0 THEN sq[j] ELSE sq[j + 1]]
 Renum(r, i0, D) == IF r = i0 THEN 0 ELSE IF r > i0 /\ "NoRenumber" \notin D THEN r - 1 ELSE r
 PadTo(sq, len, x) == IF Len(sq) >= len THEN sq ELSE sq \o [j \in 1..(len - Len(sq)) |-> x]
-NoGroup == [gidx |-> 0, v |-> <<>>, ix |-> <<>>, bm |-> <<>>]     \* the zero placeholder of resize_with
+NoGroup == [gidx |-> 0, v |-> <<>>, ix |-> <<>>, bm |-> <<>>, ml |-> <<>>, dr |-> <<>>, na |-> 0]     \* the zero placeholder of resize_with
 SetAt(sq, i0, x) == IF i0 < Len(sq) THEN [sq EXCEPT ![i0 + 1] = x] ELSE sq
 Ok(s, r) == [st |-> s, res |-> "ok", ret |-> r]
 \* InvalidReference { max: len as u32 - 1 }: len = 0 underflows
@@ -57,13 +63,14 @@ RemoveTexture(s, o, D) ==
 \* ---- materials -------------------------------------------------------------------------------------------------------
 AddMaterial(s, o, D) ==
   Ok([s EXCEPT !.mat = Append(@, [id |-> o.id, t1 |-> o.a, t2 |-> o.b]), !.hdr.nmat = @ + 1, !.rmod = TRUE], Len(s.mat))
-Touched(g, i0) == \E b \in 1..Len(g.bm) : g.bm[b] >= i0
+Touched(g, i0) == (\E b \in 1..Len(g.bm) : g.bm[b] >= i0) \/ (\E b \in 1..Len(g.ml) : g.ml[b] >= i0)
 RemoveMaterial(s, o, D) ==
   LET i0 == o.a IN
   IF i0 >= Len(s.mat) THEN Err(s, Len(s.mat), D)
-  ELSE IF "DanglingZero" \notin D /\ Len(s.mat) = 1 /\ (\E p \in 1..Len(s.grp) : s.grp[p].bm # <<>>) THEN Refuse(s)
+  ELSE IF "DanglingZero" \notin D /\ Len(s.mat) = 1 /\ (\E p \in 1..Len(s.grp) : s.grp[p].bm # <<>> \/ s.grp[p].ml # <<>>) THEN Refuse(s)
   ELSE Ok([s EXCEPT !.mat = DropAt(@, i0), !.hdr.nmat = @ - 1, !.rmod = TRUE,
-                    !.grp = [p \in 1..Len(s.grp) |-> [s.grp[p] EXCEPT !.bm = [b \in 1..Len(s.grp[p].bm) |-> Renum(s.grp[p].bm[b], i0, D)]]],
+                    !.grp = [p \in 1..Len(s.grp) |-> [s.grp[p] EXCEPT !.bm = [b \in 1..Len(s.grp[p].bm) |-> Renum(s.grp[p].bm[b], i0, D)],
+                                                                      !.ml = [b \in 1..Len(s.grp[p].ml) |-> Renum(s.grp[p].ml[b], i0, D)]]],
                     !.gmod = [p \in 1..Len(s.gmod) |-> s.gmod[p] \/ (p <= Len(s.grp) /\ Touched(s.grp[p], i0))]], 0)
 
 \* ---- groups ----------------------------------------------------------------------------------------------------------
@@ -74,10 +81,12 @@ CreateGroup(s, o, D) ==
                 ELSE PadTo(s.grp, idx, NoGroup)
   IN Ok([s EXCEPT !.gi = Append(@, o.id), !.hdr.ngrp = @ + 1, !.rmod = TRUE,
                   !.grp = Append(padded, [NoGroup EXCEPT !.gidx = idx]), !.gmod = Append(@, TRUE)], idx)
-\* the group a caller hands to add_group: b vertices (ids o.id*10 + k), one triangle over them, one batch with material c (c < 0: none)
+\* the group a caller hands to add_group: b vertices (ids o.id*10 + k), one triangle over them, one batch with material c (c < 0: none;
+\* the same index in the group's materials list), one doodad reference d (d < 0: doodad_refs = None)
 MkGroup(o) == [gidx |-> o.a, v |-> [k \in 1..o.b |-> o.id * 10 + k],
                ix |-> IF o.b = 0 THEN <<>> ELSE [k \in 1..3 |-> (k - 1) % o.b],
-               bm |-> IF o.c < 0 THEN <<>> ELSE <<o.c>>]
+               bm |-> IF o.c < 0 THEN <<>> ELSE <<o.c>>, ml |-> IF o.c < 0 THEN <<>> ELSE <<o.c>>,
+               dr |-> IF o.d < 0 THEN <<>> ELSE <<o.d>>, na |-> IF o.b = 3 THEN 3 ELSE 0]     \* the 3-vertex shape carries normals
 AddGroup(s, o, D) ==
   LET i0 == o.a IN
   IF i0 >= Len(s.gi) THEN Err(s, Len(s.gi), D)
@@ -87,15 +96,16 @@ RemoveGroup(s, o, D) ==
       n2 == Len(s.gi) - 1                       \* groups left
   IN
   IF i0 >= Len(s.gi) THEN Err(s, Len(s.gi), D)
+  ELSE IF "DanglingZero" \notin D /\ Len(s.gi) = 1 /\ s.pr # <<>> THEN Refuse(s)
   ELSE IF "StaleGroupIndex" \in D
   THEN LET g1 == [p \in 1..Len(s.grp) |-> IF p - 1 >= i0 /\ p - 1 < n2 THEN [s.grp[p] EXCEPT !.gidx = p - 1] ELSE s.grp[p]]
            m1 == [p \in 1..Len(s.gmod) |-> s.gmod[p] \/ (p - 1 >= i0 /\ p - 1 < n2 /\ p <= Len(s.grp))]
-       IN Ok([s EXCEPT !.gi = DropAt(@, i0), !.hdr.ngrp = @ - 1, !.rmod = TRUE,
+       IN Ok([s EXCEPT !.gi = DropAt(@, i0), !.hdr.ngrp = @ - 1, !.rmod = TRUE, !.pr = [k \in 1..Len(s.pr) |-> Renum(s.pr[k], i0, D)],
                        !.grp = IF i0 < Len(g1) THEN DropAt(g1, i0) ELSE g1,
                        !.gmod = IF i0 < Len(m1) THEN DropAt(m1, i0) ELSE m1], 0)
   ELSE LET g1 == IF i0 < Len(s.grp) THEN DropAt(s.grp, i0) ELSE s.grp
            m1 == IF i0 < Len(s.gmod) THEN DropAt(s.gmod, i0) ELSE s.gmod
-       IN Ok([s EXCEPT !.gi = DropAt(@, i0), !.hdr.ngrp = @ - 1, !.rmod = TRUE,
+       IN Ok([s EXCEPT !.gi = DropAt(@, i0), !.hdr.ngrp = @ - 1, !.rmod = TRUE, !.pr = [k \in 1..Len(s.pr) |-> Renum(s.pr[k], i0, D)],
                        !.grp = [p \in 1..Len(g1) |-> IF p - 1 >= i0 /\ p - 1 < n2 THEN [g1[p] EXCEPT !.gidx = p - 1] ELSE g1[p]],
                        !.gmod = [p \in 1..Len(m1) |-> m1[p] \/ (p - 1 >= i0 /\ p - 1 < n2 /\ p <= Len(g1))]], 0)
 
@@ -104,14 +114,15 @@ Flag(s, g0, D) == IF "VertexNoFlag" \in D THEN s.gmod ELSE SetAt(s.gmod, g0, TRU
 AddVertex(s, o, D) ==
   LET g0 == o.a IN
   IF g0 >= Len(s.grp) THEN Err(s, Len(s.grp), D)
-  ELSE Ok([s EXCEPT !.grp[g0 + 1].v = Append(@, o.id), !.rmod = @ \/ g0 < Len(s.gi), !.gmod = Flag(s, g0, D)], Len(s.grp[g0 + 1].v))
+  ELSE Ok([s EXCEPT !.grp[g0 + 1].v = Append(@, o.id),
+                    !.grp[g0 + 1].na = IF "AttrsNotParallel" \notin D /\ @ > 0 /\ @ = Len(s.grp[g0 + 1].v) THEN @ + 1 ELSE @, !.rmod = @ \/ g0 < Len(s.gi), !.gmod = Flag(s, g0, D)], Len(s.grp[g0 + 1].v))
 RemoveVertex(s, o, D) ==
   LET g0 == o.a  v0 == o.b IN
   IF g0 >= Len(s.grp) THEN Err(s, Len(s.grp), D)
   ELSE LET g == s.grp[g0 + 1] IN
   IF v0 >= Len(g.v) THEN Err(s, Len(g.v), D)
   ELSE IF "DanglingZero" \notin D /\ Len(g.v) = 1 /\ g.ix # <<>> THEN Refuse(s)
-  ELSE Ok([s EXCEPT !.grp[g0 + 1].v = DropAt(@, v0), !.grp[g0 + 1].ix = [k \in 1..Len(g.ix) |-> Renum(g.ix[k], v0, D)],
+  ELSE Ok([s EXCEPT !.grp[g0 + 1].v = DropAt(@, v0), !.grp[g0 + 1].na = IF v0 < @ THEN @ - 1 ELSE @, !.grp[g0 + 1].ix = [k \in 1..Len(g.ix) |-> Renum(g.ix[k], v0, D)],
                     !.rmod = @ \/ g0 < Len(s.gi), !.gmod = Flag(s, g0, D)], 0)
 
 \* ---- doodads ---------------------------------------------------------------------------------------------------------
@@ -122,8 +133,11 @@ SetAfterRemoval(z, i0, D) ==
 RemoveDoodad(s, o, D) ==
   LET i0 == o.a IN
   IF i0 >= Len(s.dd) THEN Err(s, Len(s.dd), D)
+  ELSE IF "DanglingZero" \notin D /\ Len(s.dd) = 1 /\ (\E p \in 1..Len(s.grp) : s.grp[p].dr # <<>>) THEN Refuse(s)
   ELSE Ok([s EXCEPT !.dd = DropAt(@, i0), !.hdr.ndd = @ - 1, !.hdr.ndn = IF "NamesCountDrift" \in D THEN @ ELSE @ - 1, !.rmod = TRUE,
-                    !.ds = [z \in 1..Len(s.ds) |-> SetAfterRemoval(s.ds[z], i0, D)]], 0)
+                    !.ds = [z \in 1..Len(s.ds) |-> SetAfterRemoval(s.ds[z], i0, D)],
+                    !.grp = [p \in 1..Len(s.grp) |-> [s.grp[p] EXCEPT !.dr = [k \in 1..Len(s.grp[p].dr) |-> Renum(s.grp[p].dr[k], i0, D)]]],
+                    !.gmod = [p \in 1..Len(s.gmod) |-> s.gmod[p] \/ (p <= Len(s.grp) /\ \E k \in 1..Len(s.grp[p].dr) : s.grp[p].dr[k] >= i0)]], 0)
 AddDoodadSet(s, o, D) == Ok([s EXCEPT !.ds = Append(@, [id |-> o.id, st |-> o.a, n |-> o.b]), !.hdr.nds = @ + 1, !.rmod = TRUE], Len(s.ds))
 RemoveDoodadSet(s, o, D) ==
   IF o.a >= Len(s.ds) THEN Err(s, Len(s.ds), D)
@@ -161,32 +175,36 @@ Apply(s, o, D) ==
 
 \* ---- initial objects: WmoEditor::new(root) ----------------------------------------------------------------------------
 Hdr(s) == [nmat |-> Len(s.mat), ngrp |-> Len(s.gi), ndd |-> Len(s.dd), ndn |-> Len(s.dd), nds |-> Len(s.ds)]
-Bare(tex, mat, gi, dd, ds) ==
-  [tex |-> tex, mat |-> mat, gi |-> gi, grp |-> <<>>, gmod |-> [p \in 1..Len(gi) |-> FALSE], dd |-> dd, ds |-> ds,
+Bare(tex, mat, gi, dd, ds, pr) ==
+  [pr |-> pr, tex |-> tex, mat |-> mat, gi |-> gi, grp |-> <<>>, gmod |-> [p \in 1..Len(gi) |-> FALSE], dd |-> dd, ds |-> ds,
    hdr |-> [nmat |-> Len(mat), ngrp |-> Len(gi), ndd |-> Len(dd), ndn |-> Len(dd), nds |-> Len(ds)],
    rmod |-> FALSE, ver |-> 0, orig |-> 0]
 M(i, a, b) == [id |-> i, t1 |-> a, t2 |-> b]
 Z(i, a, b) == [id |-> i, st |-> a, n |-> b]
-Init1 == Bare(<<1, 2>>, <<M(3, 0, 1), M(4, 1, 1)>>, <<5, 6>>, <<7, 8, 9>>, <<Z(10, 0, 2), Z(11, 2, 1)>>)
+Init1 == Bare(<<1, 2>>, <<M(3, 0, 1), M(4, 1, 1)>>, <<5, 6>>, <<7, 8, 9>>, <<Z(10, 0, 2), Z(11, 2, 1)>>, <<0, 1, 1>>)
 InitState(k) ==
-  CASE k = 0 -> Bare(<<>>, <<>>, <<>>, <<>>, <<>>)
+  CASE k = 0 -> Bare(<<>>, <<>>, <<>>, <<>>, <<>>, <<>>)
     [] k = 1 -> Init1
-    [] k = 2 -> Bare(<<1>>, <<M(3, 0, 0)>>, <<5>>, <<7>>, <<Z(10, 0, 1), Z(11, 1, 0)>>)
+    [] k = 2 -> Bare(<<1>>, <<M(3, 0, 0)>>, <<5>>, <<7>>, <<Z(10, 0, 1), Z(11, 1, 0)>>, <<0>>)
     \* k = 3: object 1 with both groups loaded (reachable from 1 by two add_group calls; a deeper start for the model checker)
-    [] k = 3 -> Apply(Apply(Init1, [op |-> "add_group", id |-> 20, a |-> 0, b |-> 3, c |-> 1], {}).st,
-                      [op |-> "add_group", id |-> 21, a |-> 1, b |-> 2, c |-> 0], {}).st
+    [] k = 3 -> Apply(Apply(Init1, [op |-> "add_group", id |-> 20, a |-> 0, b |-> 3, c |-> 1, d |-> 2], {}).st,
+                      [op |-> "add_group", id |-> 21, a |-> 1, b |-> 2, c |-> 0, d |-> -1], {}).st
 
 \* ---- the invariants a user relies on ------------------------------------------------------------------------------------
 TexRefs(s)   == \A m \in 1..Len(s.mat) : s.mat[m].t1 < Len(s.tex) /\ s.mat[m].t2 < Len(s.tex)
-MatRefs(s)   == \A p \in 1..Len(s.grp) : \A b \in 1..Len(s.grp[p].bm) : s.grp[p].bm[b] < Len(s.mat)
+MatRefs(s)   == \A p \in 1..Len(s.grp) : /\ \A b \in 1..Len(s.grp[p].bm) : s.grp[p].bm[b] < Len(s.mat)
+                                         /\ \A b \in 1..Len(s.grp[p].ml) : s.grp[p].ml[b] < Len(s.mat)
+DoodadRefs(s) == \A p \in 1..Len(s.grp) : \A k \in 1..Len(s.grp[p].dr) : s.grp[p].dr[k] < Len(s.dd)
+PortalRefs(s) == \A k \in 1..Len(s.pr) : s.pr[k] < Len(s.gi)
 IdxRefs(s)   == \A p \in 1..Len(s.grp) : \A k \in 1..Len(s.grp[p].ix) : s.grp[p].ix[k] < Len(s.grp[p].v)
+AttrsParallel(s) == \A p \in 1..Len(s.grp) : s.grp[p].na \in {0, Len(s.grp[p].v)}
 SetRanges(s) == \A z \in 1..Len(s.ds) : s.ds[z].st >= 0 /\ s.ds[z].n >= 0 /\ s.ds[z].st + s.ds[z].n <= Len(s.dd)
 HeaderCounts(s) == s.hdr = Hdr(s)
 GroupsParallel(s) == /\ Len(s.grp) <= Len(s.gi) /\ Len(s.gmod) = Len(s.gi)
                      /\ \A p \in 1..Len(s.grp) : s.grp[p].gidx \in {p - 1, 0}      \* 0: the slot of a group that was never loaded (placeholder)
 FlagsCoverData(s) == \A p \in 1..Len(s.grp) : s.grp[p] \notin {NoGroup, [NoGroup EXCEPT !.gidx = p - 1]} => (p <= Len(s.gmod) /\ s.gmod[p])
 VersionSane(s) == s.rmod \/ s.ver = s.orig
-Integrity(s) == TexRefs(s) /\ MatRefs(s) /\ IdxRefs(s) /\ SetRanges(s) /\ HeaderCounts(s) /\ GroupsParallel(s) /\ FlagsCoverData(s) /\ VersionSane(s)
+Integrity(s) == AttrsParallel(s) /\ DoodadRefs(s) /\ PortalRefs(s) /\ TexRefs(s) /\ MatRefs(s) /\ IdxRefs(s) /\ SetRanges(s) /\ HeaderCounts(s) /\ GroupsParallel(s) /\ FlagsCoverData(s) /\ VersionSane(s)
 
 \* ---- per-call postconditions (s --o--> r) -----------------------------------------------------------------------------
 At(sq, r) == IF r >= 0 /\ r < Len(sq) THEN sq[r + 1] ELSE -1          \* what a 0-based reference resolves to
@@ -206,6 +224,8 @@ RenumberOK(s, o, r) ==
          /\ t.mat = DropAt(s.mat, o.a) /\ Len(t.grp) = Len(s.grp)
          /\ \A p \in 1..Len(s.grp) : /\ Len(t.grp[p].bm) = Len(s.grp[p].bm)
                                      /\ \A b \in 1..Len(s.grp[p].bm) : KeepsTarget(s.mat, t.mat, s.grp[p].bm[b], t.grp[p].bm[b], o.a)
+                                     /\ Len(t.grp[p].ml) = Len(s.grp[p].ml)
+                                     /\ \A b \in 1..Len(s.grp[p].ml) : KeepsTarget(s.mat, t.mat, s.grp[p].ml[b], t.grp[p].ml[b], o.a)
     [] o.op = "remove_vertex" ->
          LET g == s.grp[o.a + 1]  h == t.grp[o.a + 1] IN
          /\ h.v = DropAt(g.v, o.b) /\ Len(h.ix) = Len(g.ix)
@@ -213,13 +233,17 @@ RenumberOK(s, o, r) ==
     [] o.op = "remove_doodad" ->
          /\ t.dd = DropAt(s.dd, o.a) /\ Len(t.ds) = Len(s.ds)
          /\ \A z \in 1..Len(s.ds) : Covered(t, t.ds[z]) = Without(Covered(s, s.ds[z]), s.dd[o.a + 1])
+         /\ Len(t.grp) = Len(s.grp)
+         /\ \A p \in 1..Len(s.grp) : /\ Len(t.grp[p].dr) = Len(s.grp[p].dr)
+                                     /\ \A k \in 1..Len(s.grp[p].dr) : KeepsTarget(s.dd, t.dd, s.grp[p].dr[k], t.grp[p].dr[k], o.a)
     [] o.op = "remove_group" ->
-         /\ t.gi = DropAt(s.gi, o.a)
+         /\ t.gi = DropAt(s.gi, o.a) /\ Len(t.pr) = Len(s.pr)
+         /\ \A k \in 1..Len(s.pr) : KeepsTarget(s.gi, t.gi, s.pr[k], t.pr[k], o.a)
          /\ \A p \in 1..Len(t.grp) : p - 1 >= o.a /\ p + 1 <= Len(s.grp) => t.grp[p].v = s.grp[p + 1].v
     [] OTHER -> TRUE
 \* the flags say exactly what changed: a call that changed the root part sets rmod, one that changed a group's data sets its flag,
 \* flags are never cleared, and a call that changed nothing sets nothing (convert to the current version, saves, failed calls)
-RootPart(s) == <<s.tex, s.mat, s.gi, s.dd, s.ds, s.hdr, s.ver>>
+RootPart(s) == <<s.tex, s.mat, s.gi, s.dd, s.ds, s.hdr, s.ver, s.pr>>
 FlagsExact(s, o, r) ==
   LET t == r.st IN
   /\ (s.rmod => t.rmod)
